@@ -27,6 +27,19 @@ fn make_val(id: u64, subnet: Option<u64>) -> Enr {
     } else {
         None
     };
+    // one record in five with an IPv4 address has no UDP port for it (a TCP port only) and is
+    // reachable over IPv6: its IPv4 address counts towards the /24 limits like any other
+    if let (Some((ip, port)), true) = (ip4, id % 5 == 3) {
+        let mut b = Enr::builder();
+        b.seq(id + 1);
+        b.ip4(ip);
+        b.tcp4(port);
+        b.ip6(std::net::Ipv6Addr::new(0x2001, 0xdb8, 0, 0, 0, 0, 1, (id % 60000 + 1) as u16));
+        b.udp6(9000 + (id % 1000) as u16);
+        if let Ok(e) = b.build(&key) {
+            return e;
+        }
+    }
     make_enr(&key, id + 1, ip4, ip6, 0)
 }
 
